@@ -4,6 +4,7 @@ import Proofs.C16Decl
 import Proofs.C16Rename
 import Proofs.C16Early
 import Proofs.C16Locals
+import Proofs.C16Stack
 /-! Property theorems for C16 — scalar/array typing is sound, exact and independent of declaration order.
 Model: `GoawkModel.C16` (the pass structure of resolve.go with the function order as a parameter); specification:
 `GoawkModel.C16.Sat` / `Consistent` (a total scalar/array typing satisfying every usage constraint exists). -/
@@ -204,5 +205,58 @@ example : resolve exBad [5] = .error (0, 2, .useAs .array 6 .scalar) := rfl
 example : exProg.builtins ≠ [] := by decide
 
 example : Renaming (fun n => 2 * n) := ⟨fun _ _ h => Nat.eq_of_mul_eq_mul_left (by decide : 0 < 2) h, rfl⟩
+
+/-! ### scalars of an activation at any depth, under re-allocation of the value stack (`GoawkModel.C16.Stack`) -/
+
+/-- a run of `CallUser`'s stack discipline that exercises everything: the main program pushes the null of a callee's scalar and
+calls; the callee evaluates an expression two operands deep (with a 2-cell stack the second operand re-allocates), assigns its
+scalar, makes a nested call, consumes the result and reads its scalar back -/
+def exTrace : List Stack.Ev :=
+  [.push 0, .enter 1, .push 5, .push 6, .pop, .pop, .write 0 9, .push 0, .enter 1, .leave 7, .pop, .read 0, .leave 3, .pop]
+
+/-- The code as it is (`p.frame` a slice of the stack, the caller's slice saved in `oldFrame` and put back): every scalar read and
+every operand consumed is what the reference semantics — each activation owns its scalars and its operands, scalars are fresh
+copies of the arguments — says, at every call depth, for EVERY growth policy of `append` and every initial capacity: an activation
+keeps reading and writing the backing array its slice was cut from, arguments and operands always go through the current one. -/
+theorem frames_survive_growth (grow : Nat → Nat) (hg : ∀ c, c < grow c) (cap0 : Nat) (es : List Stack.Ev) (obs : List Nat)
+    (h : Stack.refRun Stack.refInit es = some obs) :
+    Stack.run .savedSlice grow (Stack.init cap0) es = obs :=
+  Stack.run_sim .savedSlice (by decide) grow hg es _ _ obs (Stack.rel_init _ cap0) h
+
+/-- The same for frames kept as base indexes into whatever the stack currently is, for every access. -/
+theorem offsets_survive_growth (grow : Nat → Nat) (hg : ∀ c, c < grow c) (cap0 : Nat) (es : List Stack.Ev) (obs : List Nat)
+    (h : Stack.refRun Stack.refInit es = some obs) :
+    Stack.run .offset grow (Stack.init cap0) es = obs :=
+  Stack.run_sim .offset (by decide) grow hg es _ _ obs (Stack.rel_init _ cap0) h
+
+/-- Hence what a program observes does not depend on when and by how much the stack is re-allocated. -/
+theorem growth_policy_irrelevant (g1 g2 : Nat → Nat) (h1 : ∀ c, c < g1 c) (h2 : ∀ c, c < g2 c) (c1 c2 : Nat)
+    (es : List Stack.Ev) (obs : List Nat) (h : Stack.refRun Stack.refInit es = some obs) :
+    Stack.run .savedSlice g1 (Stack.init c1) es = Stack.run .savedSlice g2 (Stack.init c2) es := by
+  rw [frames_survive_growth g1 h1 c1 es obs h, frames_survive_growth g2 h2 c2 es obs h]
+
+/-- the full statement for the mixed discipline (slices while an activation runs, the caller's frame cut anew out of the
+current stack at the saved base index after a call) -/
+def ResliceSurvivesGrowth : Prop :=
+  ∀ (grow : Nat → Nat), (∀ c, c < grow c) → ∀ (cap0 : Nat) (es : List Stack.Ev) (obs : List Nat),
+    Stack.refRun Stack.refInit es = some obs → Stack.run .reslice grow (Stack.init cap0) es = obs
+
+/-- … is false: when an operand push of the RUNNING activation re-allocates the stack, that activation goes on writing its
+scalars into the old backing array; cutting its frame out of the new array after its next call brings back the values of the
+moment of re-allocation (`exTrace` on a 2-cell stack: the scalar assigned 9 reads back as null). -/
+theorem reslice_fails : ¬ ResliceSurvivesGrowth := by
+  intro h
+  have := h (fun c => 2 * c + 1) (fun c => by omega) 2 exTrace [6, 5, 7, 9, 3] (by decide)
+  revert this
+  decide
+
+/-- non-vacuity: `exTrace` is a run of the reference semantics; the code as it is observes the same on a 2-cell stack that
+doubles, on a 1-cell stack that grows by one, and on a stack that never has to grow -/
+example : Stack.refRun Stack.refInit exTrace = some [6, 5, 7, 9, 3] := by decide
+example : Stack.run .savedSlice (fun c => 2 * c + 1) (Stack.init 2) exTrace = [6, 5, 7, 9, 3] := by decide
+example : Stack.run .savedSlice (fun c => c + 1) (Stack.init 1) exTrace = [6, 5, 7, 9, 3] := by decide
+example : Stack.run .offset (fun c => 2 * c + 1) (Stack.init 2) exTrace = [6, 5, 7, 9, 3] := by decide
+example : Stack.run .reslice (fun c => 2 * c + 1) (Stack.init 2) exTrace = [6, 5, 7, 0, 3] := by decide
+example : Stack.run .reslice (fun c => 2 * c + 1) (Stack.init 100) exTrace = [6, 5, 7, 9, 3] := by decide
 
 end GoawkModel.C16
